@@ -1,2 +1,3 @@
 import OpyVerif.Proofs.InitCodeSearch
 import OpyVerif.Proofs.InitCodeHyper
+import OpyVerif.Proofs.InitCodeTerminals
